@@ -4,6 +4,10 @@ header: retry [max=N] [dyn=1] [retry=<bitmask of retryable kinds>] [bo=fixed:D|e
               [budget=bucket:<max>:<initial> | aimd:<min>:<max>:<dep>:<wd>:<q>]
         back-off values D are milliseconds, microseconds with unit=us, or `max` (= Duration::MAX); the op clock
         (adv, t=, inner latencies) is always in milliseconds
+   or:  retry chain=<s1,s2,…> [unit=us]   the builder chain itself, left to right: m<n> = max_attempts(n), f<n> =
+        max_attempts_fn (the request's ma=, else <n>), bf<D> / be<D> / bt<D>/<D>/… = fixed_backoff / exponential_backoff /
+        backoff(table), p<mask> = retry_on, ubucket:… / uaimd:… = budget(a new one); `chain=-` = no setter. Every setting
+        is the one set LAST (max_attempts and max_attempts_fn set the same thing, as do the three back-off setters).
 ops:    arrive <c> [ma=N] inner=<lat>:<out>,…   poll/drop/adv/settle   probe balance|limit
         manual deposit|withdraw
 """
@@ -31,6 +35,7 @@ def _plan(rng, n):
 
 def gen(rng, tier):
     words = ["retry"]
+    use_chain = rng.random() < 0.5       # the settings below are written as a builder chain (any order, overridden setters)
     mx = rng.choice([None, 0, 1, 2, 2, 3, 3, 4, 5, 6])
     if mx is not None:
         words.append("max=%d" % mx)
@@ -100,6 +105,13 @@ def gen(rng, tier):
                                          rng.choice([0, 1, 2, 2, 3, 4]))
     if budget:
         words.append("budget=" + budget)
+    if use_chain:
+        chain = _gen_chain(rng, words[1:], us)
+        words = ["retry", "chain=" + chain] + (["unit=us"] if us else [])
+        eff = parse_chain(chain)
+        dyn = eff["dyn"]
+        budget = eff["budget"]
+        bo_vals = sorted(set(bo_vals + _bo_vals(eff["bo"], us)))
     header = " ".join(words)
 
     ncall = rng.choice([1, 1, 2, 2, 3, 3, 4, 4, 5, 6])
@@ -147,6 +159,111 @@ def gen(rng, tier):
     return {"header": header, "ops": ops}
 
 
+# ------------------------------------------------------------------------------ builder chains
+
+def parse_chain(text):
+    """the configuration a builder chain asks for: every setting is the one set last (`max_attempts` and
+    `max_attempts_fn` set the same setting, so do the three back-off setters); defaults: 3 attempts, every error
+    retried, exponential back-off from 100 ms, no budget. Stated from the builder's documentation, not from the Lean
+    model. -> {"max", "dyn", "mask", "bo" (as the header word bo=), "budget" (as budget=), "order": [...] }"""
+    cfg = {"max": 3, "dyn": False, "mask": None, "bo": None, "budget": None, "order": []}
+    for it in text.split(","):
+        if not it.isascii():
+            continue
+        h1, a1, h2, a2 = it[:1], it[1:], it[:2], it[2:]
+        if h1 in ("m", "f") and a1.isdigit():
+            cfg["max"], cfg["dyn"] = int(a1), h1 == "f"
+            cfg["order"].append("max_attempts_fn" if h1 == "f" else "max_attempts")
+        elif h1 == "p" and a1.isdigit():
+            cfg["mask"] = int(a1)
+            cfg["order"].append("retry_on")
+        elif h2 in ("bf", "be", "bt"):
+            cfg["bo"] = {"bf": "fixed", "be": "exp", "bt": "fn"}[h2] + ":" + a2.replace("/", ",")
+            cfg["order"].append("backoff")
+        elif h1 == "u" and a1.partition(":")[0] in ("bucket", "aimd"):
+            cfg["budget"] = a1
+            cfg["order"].append("budget")
+    return cfg
+
+
+def _bo_vals(bo, us):
+    """advance values (ms) around the delays of a back-off word"""
+    if bo is None:
+        return [100, 200]
+    kind, _, arg = bo.partition(":")
+    if kind == "fixed":
+        ds = [_us(arg, us)]
+    elif kind == "exp":
+        ds = [min(_us(arg, us) * 2 ** k, DUR_MAX_US) for k in range(4)]
+    else:
+        ds = [_us(x, us) for x in arg.split(",") if x]
+    out = []
+    for x in ds:
+        if x < 10 ** 9:
+            out += [x // 1000, -(-x // 1000)]
+    return out
+
+
+def _item(word):
+    """a classic header word as the chain item that asks for the same thing"""
+    k, _, v = word.partition("=")
+    if k == "retry":
+        return "p" + v
+    if k == "budget":
+        return "u" + v
+    if k == "bo":
+        kind, _, arg = v.partition(":")
+        return {"fixed": "bf", "exp": "be"}.get(kind, "bt") + arg.replace(",", "/")
+    return None
+
+
+def _noise(rng, us):
+    """one more setter with values of its own (overridden if it comes to stand before another of its setting)"""
+    r = rng.random()
+    if r < 0.30:
+        return "m%d" % rng.choice([0, 1, 2, 2, 3, 4, 7])
+    if r < 0.55:
+        return "f%d" % rng.choice([0, 1, 2, 3, 4, 5, 6])
+    if r < 0.75:
+        d = rng.choice([0, 1, 500, 999, 1001, 2250] if us else [0, 1, 2, 5, 10])
+        return rng.choice(["bf%d" % d, "be%d" % d, "bt%d/%d" % (d, rng.choice([0, 1, 3])), "bt"])
+    if r < 0.88:
+        return "p%d" % rng.choice([0, 2, 6, 8, 14])
+    if r < 0.97:
+        return rng.choice(["ubucket:%d:%d" % (m, i) for m in (0, 1, 3) for i in (0, 1, 4)]
+                          + ["uaimd:0:2:1:1:2", "uaimd:1:4:2:1:3"])
+    return rng.choice(["x9", "m", "unone:1", "mm3", "p-1"])          # not a setter: skipped
+
+
+def _gen_chain(rng, words, us):
+    """the settings of the classic header `words` as a builder chain: the intended setters in a random order, with
+    0..3 further setters (any setting, other values) anywhere — those standing before the intended one of their setting
+    are overridden, those after it override it; the two max_attempts setters in both orders on purpose"""
+    if rng.random() < 0.03:
+        return "-"               # no setter at all: the builder's defaults
+    kv = dict(w.partition("=")[::2] for w in words)
+    items = [x for x in (_item(w) for w in words) if x]
+    mx = kv.get("max")
+    if kv.get("dyn") == "1":
+        items.append("f%s" % (mx if mx is not None else "3"))
+    elif mx is not None:
+        items.append("m%s" % mx)
+    rng.shuffle(items)
+    r = rng.random()
+    if r < 0.30:                 # an extractor first, a fixed limit later (and the other way round)
+        a, b = "f%d" % rng.choice([3, 4, 5, 6, 8]), "m%d" % rng.choice([0, 1, 2, 2, 3])
+        if rng.random() < 0.7:
+            a, b = b, a
+        items = [x for x in items if x[:1] not in "mf"]
+        j = rng.randint(0, len(items))
+        items.insert(j, b)
+        items.insert(rng.randint(0, j), a)         # a stands somewhere before b
+    n_extra = rng.choice([0, 0, 1, 1, 2, 3])
+    for _ in range(n_extra):
+        items.insert(rng.randint(0, len(items)), _noise(rng, us))
+    return ",".join(items) if items else "-"
+
+
 # ------------------------------------------------------------------------------ reading a case
 
 DUR_MAX_US = 2 ** 64 * 10 ** 6          # Duration::MAX (u64::MAX s + 999 999 999 ns), rounded up to whole µs
@@ -174,6 +291,10 @@ def _cfg(case):
     mask = int(kv["retry"]) if "retry" in kv else None
     bo = kv.get("bo")
     us = kv.get("unit") == "us"
+    budget_word = kv.get("budget")
+    if "chain" in kv:            # the effective settings, computed here from the chain: the last setter of each wins
+        eff = parse_chain(kv["chain"])
+        mx, dyn, mask, bo, budget_word = eff["max"], eff["dyn"], eff["mask"], eff["bo"], eff["budget"]
     # backoff(k): the configured delay before retry k+1, in MICROSECONDS
     if bo is None:
         backoff = lambda k: 100000 * 2 ** k
@@ -189,8 +310,8 @@ def _cfg(case):
             t = [_us(x, us) for x in arg.split(",") if x]
             backoff = lambda k: t[k] if k < len(t) else 0
     budget = None
-    if "budget" in kv:
-        kind, _, arg = kv["budget"].partition(":")
+    if budget_word is not None:
+        kind, _, arg = budget_word.partition(":")
         p = [int(x) for x in arg.split(":") if x]
         if kind == "bucket":
             budget = {"kind": "bucket", "max": p[0], "init": p[1] if len(p) > 1 else p[0], "cost": 1, "amount": 1}
@@ -507,6 +628,27 @@ def transitions(case, lines, meta=None):
                         tags.append("stop-max-attempts-0")
                 else:
                     tags.append("stop-budget-refused")
+    chain = kvs(case["header"]).get("chain")
+    if chain is not None:
+        order = parse_chain(chain)["order"]
+        tags.append("chain")
+        if not order:
+            tags.append("chain-empty")
+        for what in ("max_attempts", "max_attempts_fn", "backoff", "retry_on", "budget"):
+            if order.count(what) > 1:
+                tags.append("chain-repeated-" + what)
+        src = [x for x in order if x.startswith("max_attempts")]
+        if not src:
+            tags.append("chain-default-max_attempts")
+        if "max_attempts" in src and "max_attempts_fn" in src:
+            tags.append("chain-max_attempts_fn-then-max_attempts" if src[-1] == "max_attempts"
+                        else "chain-max_attempts-then-max_attempts_fn")
+            if src[-1] == "max_attempts" and any(t == "stop-exhausted" for t in tags):
+                tags.append("exhausted-under-fixed-limit-set-after-extractor")
+        if src and order[-1] not in ("max_attempts", "max_attempts_fn") and order[0] in ("max_attempts", "max_attempts_fn"):
+            tags.append("chain-max_attempts-first")
+        if src and order[-1] in ("max_attempts", "max_attempts_fn") and len(order) > 1:
+            tags.append("chain-max_attempts-last")
     for l in lines:
         _, w = tparse(l)
         if w and w[0] == "probe" and len(w) > 1:
@@ -525,7 +667,11 @@ ALL = ["first-call", "retry-same-instant", "retry-after-sleep", "retry-exactly-a
        "retry-after-broken-ms-backoff", "retry-after-sub-ms-backoff", "retry-zero-backoff", "sleeping-huge-backoff",
        "dropped-calling", "stop-panic", "stop-ok-first", "stop-ok-after-retry", "stop-refused-by-predicate",
        "stop-exhausted", "stop-max-attempts-0", "stop-budget-refused", "probe-balance", "probe-limit",
-       "probe-deposited", "probe-withdraw-0", "probe-withdraw-1", "invalid-op-noop"]
+       "probe-deposited", "probe-withdraw-0", "probe-withdraw-1", "invalid-op-noop",
+       "chain", "chain-empty", "chain-repeated-max_attempts", "chain-repeated-max_attempts_fn", "chain-repeated-backoff",
+       "chain-repeated-retry_on", "chain-repeated-budget", "chain-default-max_attempts",
+       "chain-max_attempts_fn-then-max_attempts", "chain-max_attempts-then-max_attempts_fn",
+       "exhausted-under-fixed-limit-set-after-extractor", "chain-max_attempts-first", "chain-max_attempts-last"]
 
 LEVEL_NOTE = ("Trusted: Lean kernel; the transcription of the retry loop (lib.rs) and of the sequential semantics of "
               "TokenBucketBudget / AimdBudget / AimdController in TR.Model.Retry, validated only by the sampled correspondence "
@@ -558,7 +704,9 @@ SPECS = {
                 "incl. 0; one in ten with Duration::MAX / u64::MAX values), budget none / token bucket (max 0..4, initial 0..max+2) / AIMD (min<=max, deposit "
                 "and withdraw amounts 0..3, decrease factor q/4), scripts of 0..8 inner calls (latency 0..12 ms; ok/err1..3/panic/never), "
                 "polls/drops/settles interleaved, advances biased to the back-off values rounded down and up to ms, -1/0/+1, manual deposit/withdraw by another "
-                "budget holder, probes; distinct = distinct implementation event log; non-trivial = at least one retry, a stop by "
+                "budget holder, probes; half of the configurations written as the builder chain itself (chain=: the intended setters in a random "
+                "order plus 0..3 further setters of any setting anywhere, 30 % with max_attempts_fn and max_attempts both present in either order, "
+                "3 % empty, a few skipped non-setters); distinct = distinct implementation event log; non-trivial = at least one retry, a stop by "
                 "predicate/exhaustion/budget/panic, or a cancelled inner call",
         "trusted": ["tokio sleep semantics and the sequential budget semantics as transcribed in TR.Model.Retry (sampled by the correspondence check)",
                     "harness: clock_gettime interposition, manual poller, scripted inner service", "python diff/monitors"],
@@ -574,7 +722,9 @@ SPECS = {
                       "the failure + backoff(k-1) compared in microseconds — the timer rounds up to the first millisecond boundary, never "
                       "down —, with a budget the retries equal "
                       "the true grants and a false grant ends the request, and retries x cost + balance <= initial + deposits x amount for "
-                      "the token bucket and the AIMD budget. The model is tied to the real RetryLayer by line-for-line agreement of event logs.",
+                      "the token bucket and the AIMD budget; the configuration a builder chain produces has, for each setting (max_attempts source, "
+                      "back-off, predicate, budget), the value given by the LAST setter of that setting wherever the others stand, and the layer built with "
+                      "max_attempts(n) last — after any max_attempts_fn — invokes the inner service at most max(1,n) times per request. The model is tied to the real RetryLayer by line-for-line agreement of event logs.",
         "level_note": LEVEL_NOTE,
     },
 }
